@@ -206,7 +206,12 @@ func C15(r *report.Report, tier string) {
 	add(102400, true)
 	r.Rule = "every disk size in [1530,1700] (the smallest accepted size is found, not assumed: a panic in MakeNfs = not accepted) and in [k*32768-40, k*32768+40] for k=1..3, plus 10000 and 102400: regions log | block bitmap | inode bitmap | inode table | data adjacent, non-empty, inside the disk and equal to an independent computation; fresh image: fsck clean, data-region bitmap bits == blocks of the root directory, inode bits == {0,1}, allocators == bitmaps; fill (every size below 1700, +-2 around each bitmap-block boundary, the two large sizes; thorough: every size): WRITE until no space, then the allocator has 0 free blocks, fsck is clean, every data block - no block less, none outside - is owned; delete everything: free counts return to the fresh values. distinct_nontrivial = accepted sizes"
 	accepted, minAcc := 0, uint64(0)
-	par.Map("c15", jobs, par.Options{}, func(i int, res *par.Result) {
+	par.Map("c15", jobs, par.Options{Deadline: Deadline}, func(i int, res *par.Result) {
+		if res.Skipped {
+			r.Exhaustive = false
+			r.Add("jobs_not_run_time_budget", 1)
+			return
+		}
 		a := jobs[i].(c15Arg)
 		if res.Crashed || res.Err != "" {
 			r.Violate(report.Violation{Sig: "worker-died", Detail: fmt.Sprintf("size %d: %s %s", a.Size, res.Err, tail(res.Stderr, 2000)), Replay: map[string]interface{}{"job": "c15", "arg": a}})
